@@ -306,7 +306,7 @@ class Gen:
         a = self.arg()
         k1 = r.choice([1, 5, 7, 100, 1 << 128])
         k2 = k1 + r.choice([1, 5, 1000])
-        op = r.choice(["LT", "LT", "GT", "SLT", "EQ"])
+        op = r.choice(["LT", "LT", "GT", "SLT", "EQ", "EQ"])
         first, second = (k2, k1) if r.random() < 0.7 else (k1, k2)
 
         def test(k):
@@ -318,6 +318,9 @@ class Gen:
         items = test(first) + ["ISZERO", ("ref", l1), "JUMPI"] + (self.stmt(0) if r.random() < 0.5 else mark(0xA1, 0)) + [("label", l1)]
         if r.random() < 0.5:
             items += self.stmt(0)
+        if r.random() < 0.6:
+            # the operand is read again after the join: what one side learnt about it (a == k) is not known on the other
+            items += a + [("push", r.choice([96, 128])), "MSTORE"]
         end = r.choice(["revert", "mark", "mark", "invalid"])
         items += test(second) + ["ISZERO", ("ref", l2), "JUMPI"]
         items += {"revert": [("push", 0), "PUSH0", "REVERT"], "invalid": ["INVALID"], "mark": mark(0xB2, 32)}[end]
